@@ -115,7 +115,7 @@ func ltVariants(tier string) []vsched.Variant {
 func init() {
 	vsched.Register(&vsched.Harness{
 		Name: "livetimers", Props: []string{"C36"}, Kind: "sched",
-		Doc:      "one connection on the virtual clock, scheduling bound 0; every sequence of up to 4 (thorough 5) events {to 1 ms before / exactly at / just after the reference model's current deadline, pong command, client refresh command, Client.Refresh, sub_refresh command (granted / answered Expired), direct presence tick} for ping/pong (10 s / 3 s), stale close (5 s), connection expiry (TTL 10 s, ClientExpiredCloseDelay 4 s, client-side and server-side refresh with handler none/extend/expired) and subscription expiry (TTL 10 s, ClientExpiredSubCloseDelay 4 s, presence interval 6 s, client-side, server-side handler extend/expired, server-side subscription); pings of the expiry variants are answered by the harness; reference timeline per timer kind; oracle: no-pong disconnect (3012) iff no pong within the timeout, stale close (3502) iff unauthenticated after the delay, expired close (3005/3006) or unsubscribe (2501) iff not refreshed by expiry + grace (second granularity: undetermined inside [L,U]), checked after every event and 1 ms before L / 1 ms after U",
+		Doc:      "one connection on the virtual clock, scheduling bound 0; every sequence of up to 4 (thorough 5) events {to 1 ms before / exactly at / just after the reference model's current deadline, pong command, rpc command (a command that is not a pong), client refresh command, Client.Refresh, sub_refresh command (granted / answered Expired), direct presence tick} for ping/pong (10 s / 3 s), stale close (5 s), connection expiry (TTL 10 s, ClientExpiredCloseDelay 4 s, client-side and server-side refresh with handler none/extend/expired) and subscription expiry (TTL 10 s, ClientExpiredSubCloseDelay 4 s, presence interval 6 s, client-side, server-side handler extend/expired, server-side subscription); pings of the expiry variants are answered by the harness; reference timeline per timer kind; oracle: no-pong disconnect (3012) iff no pong within the timeout, stale close (3502) iff unauthenticated after the delay, expired close (3005/3006) or unsubscribe (2501) iff not refreshed by expiry + grace (second granularity: undetermined inside [L,U]), checked after every event and 1 ms before L / 1 ms after U",
 		Variants: ltVariants,
 		Sched:    func(v vsched.Variant) func() { return ltBody(ltCfgs[v.Name]) },
 	})
@@ -451,7 +451,9 @@ func (w *ltWorld) target(ev string) (int64, bool) {
 func (w *ltWorld) alphabet() []string {
 	switch w.cfg.kind {
 	case "pong":
-		return []string{"T-", "T0", "T+", "pong", "tick", "srvRefresh"}
+		// rpcCmd: an inbound command that is not a pong (answered with an error reply: no RPC
+		// handler is set): only a pong answers a ping
+		return []string{"T-", "T0", "T+", "pong", "tick", "srvRefresh", "rpcCmd"}
 	case "stale":
 		return []string{"T-", "T0", "T+", "connect", "connectErr"}
 	case "connexp-client":
@@ -504,6 +506,8 @@ func (w *ltWorld) apply(ev string) bool {
 		if w.cfg.kind != "pong" {
 			w.exp.onRefresh(newExp)
 		}
+	case "rpcCmd":
+		w.cl.cmd(&protocol.Command{Rpc: &protocol.RPCRequest{Method: "m"}})
 	case "refreshCmd":
 		w.cl.cmd(&protocol.Command{Refresh: &protocol.RefreshRequest{Token: "ok"}})
 	case "subRefresh":
